@@ -26,6 +26,7 @@ Versions of important dependencies and environment.
 import json
 import platform
 
+import numpy as np
 import tskit
 
 __version__ = "undefined"
@@ -40,6 +41,19 @@ except ImportError:  # pragma: nocover
         __version__ = get_version(root="..", relative_to=__file__)
     except ImportError:
         pass
+
+
+def _json_default(obj):
+    """
+    Parameters are often numpy scalars or arrays (e.g. a mutation rate taken from
+    an array, ``delete_intervals`` as an ndarray): record them as the equivalent
+    Python numbers / nested lists rather than failing after the work is done.
+    """
+    if isinstance(obj, np.generic):
+        return obj.item()
+    if isinstance(obj, np.ndarray):
+        return obj.tolist()
+    raise TypeError(f"Object of type {type(obj).__name__} is not JSON serializable")
 
 
 def get_environment():
@@ -89,4 +103,4 @@ def record_provenance(tables, command=None, start_time=None, **kwargs):
     tskit provenances schema.
     """
     record = get_provenance_dict(command=command, start_time=start_time, **kwargs)
-    tables.provenances.add_row(record=json.dumps(record))
+    tables.provenances.add_row(record=json.dumps(record, default=_json_default))
